@@ -111,7 +111,8 @@ impl Ctx {
     /// scale a case budget by tier and search mode
     pub fn budget(&self, quick: u64, thorough: u64) -> u64 {
         let b = if self.thorough { thorough } else { quick };
-        if self.search { b * 8 } else { b }
+        // the search run after a broken obligation: 8x the quick budget; the thorough budget is already large, 2x
+        if self.search { if self.thorough { b * 2 } else { b * 8 } } else { b }
     }
 
     pub fn count(&mut self, key: &str) {
